@@ -428,7 +428,7 @@ def check(tier: str) -> int:
         "rows": ROWS,
         "observations": per_config,
         "s_machine_runs": len(runs),
-        "s_machine_reached": {k: flags.get(k, 0) for k in ("ckif_spin", "ckif_pass", "cancel_delivered")},
+        "s_machine_reached": {k: flags.get(k, 0) for k in ("ckif_spin", "ckif_respin", "ckif_spin_released", "ckif_pass", "cancel_delivered")},
         "vm_compute_ok": vm_ok,
         "monitor_hits": len(hits) + len(shits),
         "samples": [{"row": ROWS[r], "cancelled": c, "config": cfg, "raised_effect_yielded": e} for (cfg, r, c), e in list(zip(meta, expected))[:6]],
